@@ -123,8 +123,15 @@ impl<Ev: 'static> CTiny<Ev> {
 pub enum CEvent {
     /// Command-API one-shot
     ReqC(Token),
-    /// legacy-API one-shot (bridge host only)
+    /// legacy-API one-shot (hosts with capabilities only)
     ReqL(Token),
+    /// task that spawns a child awaiting a shell request, awaits the child's JoinHandle, then
+    /// sends an event
+    ReqJ(Token),
+    /// one task awaiting `select` over two shell requests
+    ReqS(Token),
+    /// nothing: one further core call
+    Noop,
     Sub(Token),
     Unsub,
     /// legacy render (bridge host) / Command-API render (direct host)
@@ -136,6 +143,8 @@ pub enum CEvent {
     LTimerClear,
     #[serde(skip)]
     Got(COut, Token),
+    #[serde(skip)]
+    Joined(Token),
     #[serde(skip)]
     Item(COut),
     #[serde(skip)]
@@ -188,6 +197,28 @@ where
             // one token in the payload, one captured by the continuation
             Command::request_from_shell(COp::Ask(Token::new()))
                 .then_send(move |o| CEvent::Got(o, tok))
+        }
+        CEvent::ReqJ(tok) => Command::new(|ctx| async move {
+            let child_tok = Token::new();
+            let child = ctx.spawn(|ctx| async move {
+                let out = ctx.request_from_shell(COp::Ask(Token::new())).await;
+                ctx.send_event(CEvent::Got(out, child_tok));
+            });
+            child.await;
+            ctx.send_event(CEvent::Joined(tok));
+        }),
+        CEvent::ReqS(tok) => Command::new(|ctx| async move {
+            let a = ctx.request_from_shell(COp::Ask(Token::new()));
+            let b = ctx.request_from_shell(COp::Ask(Token::new()));
+            let out = match futures::future::select(a, b).await {
+                futures::future::Either::Left((o, _)) | futures::future::Either::Right((o, _)) => o,
+            };
+            ctx.send_event(CEvent::Got(out, tok));
+        }),
+        CEvent::Noop => Command::done(),
+        CEvent::Joined(_tok) => {
+            sat_inc(&mut model.got);
+            Command::done()
         }
         CEvent::Sub(tok) => {
             if model.sub.is_some() {
